@@ -142,8 +142,8 @@ func init() {
 		"(*buffer).get", "(*bits).UnmarshalBinary", "(*wbool).UnmarshalBinary", "(*wuint16).UnmarshalBinary", "(*wuint32).UnmarshalBinary",
 		"(*vbint).UnmarshalBinary", "(*bindata).UnmarshalBinary", "(*rawdata).UnmarshalBinary", "(*UserProp).UnmarshalBinary"}
 	propAlso["C01"] = []string{"C02", "C03", "C15"}
-	roots = append(roots, "rtPubAck", "rtPubRec", "rtPubRel", "rtPubComp", "rtConnAck", "rtDisconnect", "rtAuth")
+	roots = append(roots, "rtPubAck", "rtPubRec", "rtPubRel", "rtPubComp", "rtConnAck", "rtDisconnect", "rtAuth", "rtPingReq", "rtPingResp")
 	propSpecs["C01"] = &PropSpec{ID: "C01", Roots: roots,
 		ForceInline: methodsOf(packetTypes, "UnmarshalBinary"),
-		Note: "PARTIAL - round trips of the real code: ghost harnesses (rt* in /repo/spec_verif.go, build tag verif) call the library's encoder and then the library's decoder on the bytes just written; the encoder side is taken by contract (every contract used is re-proved in this run), the decoder side is executed symbolically in place. (1) wire types: one byte, boolean, two and four byte integers, variable byte integers <= 268435455, strings/binary data of every length <= 65535, raw payload, string pairs - fill at offset i followed by buffer.get at cursor i gives no error, the same value (strings byte for byte) and the cursor exactly behind the bytes written; (2) fixed forms of PUBACK, PUBREC, PUBREL, PUBCOMP, CONNACK, DISCONNECT, AUTH (empty property section, every value of the other fields): the frame produced by fill, cut behind its fixed header as ReadRemaining does, is accepted by UnmarshalBinary into a zero packet carrying the frame's first byte, and packet identifier, reason code, acknowledge flags and first byte come back. NOT covered by a round-trip obligation: packets with properties, list packets, PUBLISH, CONNECT, WriteTo/ReadPacket themselves (C10, C06/C07, C16), re-encoding"}
+		Note: "PARTIAL - round trips of the real code: ghost harnesses (rt* in /repo/spec_verif.go, build tag verif) call the library's encoder and then the library's decoder on the bytes just written; the encoder side is taken by contract (every contract used is re-proved in this run), the decoder side is executed symbolically in place. (1) wire types: one byte, boolean, two and four byte integers, variable byte integers <= 268435455, strings/binary data of every length <= 65535, raw payload, string pairs - fill at offset i followed by buffer.get at cursor i gives no error, the same value (strings byte for byte) and the cursor exactly behind the bytes written; (2) fixed forms of PUBACK, PUBREC, PUBREL, PUBCOMP, CONNACK, DISCONNECT, AUTH (empty property section, every value of the other fields) and PINGREQ, PINGRESP: the frame produced by fill, cut behind its fixed header as ReadRemaining does, is accepted by UnmarshalBinary into a zero packet carrying the frame's first byte, and packet identifier, reason code, acknowledge flags and first byte come back. NOT covered by a round-trip obligation: packets with properties, list packets, PUBLISH, CONNECT, WriteTo/ReadPacket themselves (C10, C06/C07, C16), re-encoding"}
 }
